@@ -10,8 +10,8 @@ RULE = ("kinds: fd (JacobianWrapper on random smooth f: R^n -> R^m with arbitrar
         "jac(t,y) / hook / unhook / attribute / assignment on DiffRHS with a time-dependent right-hand side: a user Jacobian is returned whenever attached "
         "(sentinel values), otherwise the derivative at the REQUESTED (t,y)); non-trivial = >=1 Jacobian compared; distinct by (kind, shapes, base order, seed / history)")
 ASSUMPTIONS = ["finite-difference accuracy threshold: 1e-8*(|J|max+1) for smooth maps, 1e4*eps*|A|*n*(1+|x|) for linear maps, 1e-7*(|J|max+1) through DiffRHS (worst observed ratios in evidence)"]
-FLOORS = {"quick": {"fd_jacobians": 200, "fd_linear": 40, "nonsquare_or_matrix_shaped": 80, "wrapper_histories": 100, "wrapper_jac_calls": 400, "unhook_then_jac": 40, "repeated_time_calls": 60},
-          "thorough": {"fd_jacobians": 2000, "fd_linear": 400, "nonsquare_or_matrix_shaped": 800, "wrapper_histories": 1000, "wrapper_jac_calls": 5000, "unhook_then_jac": 400, "repeated_time_calls": 600}}
+FLOORS = {"quick": {"fd_jacobians": 200, "fd_linear": 40, "nonsquare_or_matrix_shaped": 80, "wrapper_histories": 100, "wrapper_jac_calls": 400, "unhook_then_jac": 40, "repeated_time_calls": 60, "system_histories": 25, "system_runs_with_user_jacobian": 35, "system_runs_from_a_fresh_integrator": 25, "system_direct_requests": 90},
+          "thorough": {"fd_jacobians": 2000, "fd_linear": 400, "nonsquare_or_matrix_shaped": 800, "wrapper_histories": 1000, "wrapper_jac_calls": 5000, "unhook_then_jac": 400, "repeated_time_calls": 600, "system_histories": 250, "system_runs_with_user_jacobian": 500, "system_runs_from_a_fresh_integrator": 300, "system_direct_requests": 900}}
 SHAPES_X = [(1,), (2,), (3,), (5,), (2, 2), (2, 3), (3, 1)]
 SHAPES_F = [(1,), (2,), (4,), (3,), (2, 2), (3, 2), (1, 3)]
 
@@ -85,12 +85,93 @@ def gen_cases(tier, seed):
         hist.append(["jac", int(rng.integers(0, 4))])
         hist.append(["jac", int(rng.integers(0, 4))])
         cases.append(dict(kind="wrapper", attr=bool(rng.random() < 0.25), shape=[int(x) for x in SHAPES_X[int(rng.integers(len(SHAPES_X)))]], hist=hist, pseed=int(rng.integers(1 << 30)), cost=3))
+    # the wrapper as it lives inside an OdeSystem: a user Jacobian attached by attribute / hook / assignment stays the one that is used across
+    # the system's life-cycle operations (runs, reset, change of method or tolerances, continuation)
+    for i in range(30 if tier == "quick" else 300):
+        ops = [str(x) for x in rng.choice(["reset", "set_method", "set_tol", "partial", "run", "reset"], size=int(rng.integers(2, 5)))]
+        cases.append(dict(kind="system", route=["attr", "hook", "assign"][i % 3], method=str(rng.choice(["RadauIIA5", "BackwardEuler", "GaussLegendre4", "CrankNicolson", "LobattoIIIC4"])),
+                          ops=["run"] + ops + ["run"], pseed=int(rng.integers(1 << 30)), cost=6))
     return cases
+
+
+def _system(spec):
+    import desolver as de
+    from vf import sysrun
+    M = util.methods()
+    shape = (3,)
+    f = TimeRHS(shape, spec["pseed"], omega=0.9, tref=0.0)
+    f.M1 = f.M1 - 1.5 * np.eye(3)      # mildly dissipative: implicit runs stay tame
+    calls = {"n": 0}
+
+    def uj(t, y, **kw):
+        calls["n"] += 1
+        return np.asarray(f.true_jac(t, y), dtype=np.float64)
+    rec = util.Rec(sig="system|%s|%s|%s|%d" % (spec["route"], spec["method"], "".join(o[0] + o[-1] for o in spec["ops"]), spec["pseed"] % 101))
+    feats = {"kind": "system", "route": spec["route"], "method": spec["method"]}
+    if spec["route"] == "attr":
+        f.jac = uj
+    t0, tf = 0.0, 1.5
+    y0 = rng_for(1606, spec["pseed"]).uniform(-1, 1, shape)
+    system = sysrun.make_system(f, y0, t0, tf, 0.1, M[spec["method"]]["cls"], rtol=1e-6, atol=1e-8)
+    if spec["route"] == "hook":
+        system.equ_rhs.hook_jacobian_call(uj)
+    elif spec["route"] == "assign":
+        system.equ_rhs.jac = uj
+    others = [m for m in ("RadauIIA5", "BackwardEuler", "CrankNicolson", "LobattoIIIC4") if m != spec["method"]]
+    rec.bump("system_histories")
+    for k, op in enumerate(spec["ops"]):
+        f2 = dict(feats, op=op, after=spec["ops"][k - 1] if k else None)
+        n0 = calls["n"]
+        try:
+            if op == "run":
+                seg = sysrun.call_integrate(system, max_steps=5000)
+                stepped = seg["i1"] > seg["i0"]
+            elif op == "partial":
+                here = float(system.t[-1])
+                seg = sysrun.call_integrate(system, t=here + 0.4 * (tf - here), max_steps=5000)
+                stepped = seg["i1"] > seg["i0"]
+            elif op == "reset":
+                system.reset()
+                stepped = False
+            elif op == "set_method":
+                system.method = M[others[(spec["pseed"] + k) % len(others)]]["cls"]
+                stepped = False
+            elif op == "set_tol":
+                system.rtol = 3e-6
+                system.atol = 3e-8
+                stepped = False
+        except Exception as e:
+            if type(e).__name__ in ("CaseTimeout", "NoProgress") or type(getattr(e, "__cause__", None)).__name__ in ("CaseTimeout", "NoProgress"):
+                raise
+            rec.violate("jacobian_history_raised", type(e).__name__, f2, err=repr(e)[:200])
+            break
+        if op in ("run", "partial") and stepped:
+            rec.bump("system_runs_with_user_jacobian")
+            rec.nontrivial = True
+            fresh_integrator = k == 0 or spec["ops"][k - 1] in ("reset", "set_method")
+            if fresh_integrator:
+                rec.bump("system_runs_from_a_fresh_integrator")
+            # (a continued run may keep working with the Jacobian it already holds: a new request is only certain after the integrator was rebuilt)
+            if calls["n"] == n0 and fresh_integrator:
+                rec.violate("user_jacobian_ignored", "implicit_run_never_called_the_attached_user_jacobian", f2, user_calls=calls["n"], njev=int(system.njev))
+        # a direct request through the system's wrapper must be answered by the user's function, whatever happened before
+        tq = float(system.t[-1])
+        yq = np.asarray(system.y[-1])
+        n1 = calls["n"]
+        J = np.asarray(system.equ_rhs.jac(tq, yq))
+        rec.bump("system_direct_requests")
+        if calls["n"] != n1 + 1 or not np.array_equal(J, np.asarray(f.true_jac(tq, yq), dtype=np.float64)):
+            rec.violate("user_jacobian_ignored", "attached_user_jacobian_not_returned", f2, user_called=bool(calls["n"] == n1 + 1), step=k)
+            break
+    rec.sample = {"spec": spec, "user_jacobian_calls": calls["n"]}
+    return rec.out()
 
 
 def run_case(spec):
     if spec["kind"] == "fd":
         return _fd(spec)
+    if spec["kind"] == "system":
+        return _system(spec)
     return _wrapper(spec)
 
 
